@@ -55,6 +55,14 @@ def random_drawing_circuit(rng, family=None, max_nodes=4, max_comps=6):
     comps = [c for c in cd['components'] if c['ctor'] == 'resistor']
     if comps and rng.random() < 0.3:
         rng.choice(comps)['args']['R'] = rng.choice([math.inf, 1e-12])
+    if rng.random() < 0.12:
+        # a passive component bridged by wires: both of its terminals end up on the same electrical node
+        two = [c for c in cd['components'] if c['ctor'] != 'ground']
+        n = rng.choice(rng.choice(two)['nodes'])
+        bid = next(i for i in ['Rb', 'Zb', 'Gb', 'Rx9'] if i not in {x['id'] for x in cd['components']})
+        kind = rng.choice(['resistor', 'conductance', 'impedance'])
+        args = {'R': G.value(rng, 0, 3)} if kind == 'resistor' else ({'G': 1 / G.value(rng, 0, 3)} if kind == 'conductance' else {'Z': [G.value(rng, 0, 3), G.value(rng, 0, 2)]})
+        cd['components'].insert(rng.randrange(len(cd['components']) + 1), {'ctor': kind, 'id': bid, 'nodes': [n, n], 'args': args})
     if rng.random() < 0.35:
         # a labelled wire (ideal ammeter): one terminal of a component is moved to a fresh node that the wire ties back
         two = [c for c in cd['components'] if c['ctor'] != 'ground']
@@ -393,6 +401,8 @@ def judge(case, ctx, prefix='C13'):
     nwires = sum(1 for s in prog['symbols'] if s['sym'] == 'Line')
     nt = len(net['components']) >= 2 and any(c['ctor'].endswith('source') for c in net['components'])
     ctx.sample(case)
+    if any(c['nodes'][0] == c['nodes'][1] for c in net['components']):
+        ctx.count('drawings_with_bridged_component')
     judge_one(ctx, prefix, prog, family, w, 'base')
     ctx.evaluated(repr((syms, min(nwires, 6), 'base')), nt)
     transforms = [
